@@ -92,6 +92,12 @@ class C13(Prop):
             kind, vals = tc.gen_narrow_feature(rng, many)
             yield {"stream": "numeric", "kind": kind, "n_bins": rng.choice([130, 200, 255]) if many else rng.randint(2, 12),
                    "method": rng.choice(["quantile", "uniform"]) if many else rng.choice(["quantile", "uniform", "sqrt", "sturges"]), "feature": vals}
+        for nb in ([4, 5, 7, 10, 14, 20] if tier == "quick" else list(range(2, 41))):
+            # regular grids: many values sit exactly on an inner edge of the uniform bins (they belong to the bin on their left,
+            # and the reported edges must contain them)
+            for kind, vals in (("int", list(range(0, 101))), ("float", [float(v) for v in range(0, 101)]),
+                               ("float", [k / 10 for k in range(0, 31)]), ("float", [k / 100 for k in range(0, 101)])):
+                yield {"stream": "numeric", "kind": kind, "n_bins": nb, "method": "uniform", "fcontainer": "polars", "feature": vals}
         for pooled in ([10, 20, 30, 100, 110, 1000, 1230] if tier == "quick" else [10, 20, 30, 40, 100, 110, 200, 1000, 1010, 1230, 2500, 12345]):
             # 'other k' with k a multiple of ten (trailing zeros of the formatted count), k = pooled
             nb = rng.choice([2, 3])
@@ -182,7 +188,9 @@ class C13(Prop):
                     return f"value {v} has no bin_edges"
                 lo, hi = e
                 ok = (lo <= v <= hi) if b == first else (lo < v <= hi)
-                if not ok and not tc.near_edge(v, [lo, hi]):
+                # exact: the reported edges are the very numbers the value was digitized against (no tolerance is needed, and a
+                # value sitting exactly on an inner edge belongs to the bin on its left)
+                if not ok:
                     return f"value {v} in bin {b} is not inside its reported edges ({lo}, {hi}]"
             groups = len(set(bins))
             if case["method"] in ("quantile", "uniform") and groups > case["n_bins"]:
